@@ -138,7 +138,7 @@ pub fn gencfg(prop: &str, tier: &str, rng: &mut Rng) -> GenCfg {
             g.mix.compute_replace = 2;
             g.mix.get = 1;
             g.swarm = false;
-            g.allow_set = false;
+            g.allow_set = true;
             g.hot_keys = (1, 4);
             g.shapes = vec![Shape::Plain, Shape::AtThreshold, Shape::Tree, Shape::Tree, Shape::Tree, Shape::TreeShrunk, Shape::AlmostTree, Shape::TreeAtThreshold];
         }
